@@ -923,3 +923,178 @@ def no_prefix_length_slicing(ctx, R, modules):
         else:
             out.append(ctx.ok(R, None, None, f"{mq}: no path is cut at the length of another path", construct=k, nontrivial=False))
     return out
+
+
+def _evidently_set(ctx, fi, e, at, depth=0):
+    """The value of expression `e` (at statement `at`) is certainly a set: literal / comprehension / set(...) / set algebra on such values /
+    a local all of whose reaching definitions are."""
+    if depth > 4:
+        return False
+    if isinstance(e, (ast.Set, ast.SetComp)):
+        return True
+    if isinstance(e, ast.Call):
+        if isinstance(e.func, ast.Name) and e.func.id in ("set", "frozenset"):
+            return True
+        if isinstance(e.func, ast.Attribute) and e.func.attr in ("difference", "intersection", "union", "symmetric_difference", "copy"):
+            return _evidently_set(ctx, fi, e.func.value, at, depth + 1)
+        return False
+    if isinstance(e, ast.BinOp) and isinstance(e.op, (ast.Sub, ast.BitAnd, ast.BitOr, ast.BitXor)):
+        return _evidently_set(ctx, fi, e.left, at, depth + 1) and _evidently_set(ctx, fi, e.right, at, depth + 1)
+    if isinstance(e, ast.Name) and e.id not in fi.params:
+        try:
+            defs = common.reaching_defs(ctx, fi, e.id, at)
+        except Exception:
+            return False
+        return bool(defs) and all(isinstance(d, ast.AST) and _evidently_set(ctx, fi, d, at, depth + 1) for d in defs)
+    return False
+
+
+def sequence_arguments(ctx, R, modules):
+    """A helper that slices one of its parameters (`p[i:j]`) needs a sequence: no resolved internal call site may hand it a value that is
+    evidently a set (the failure only shows on the branch that slices, e.g. when there is more than one chunk)."""
+    out = []
+    slicers = {}
+    for g in ctx.prog.funcs.values():
+        if g.module.name not in modules:
+            continue
+        for n in body_nodes(g):
+            if isinstance(n, ast.Subscript) and isinstance(n.slice, ast.Slice) and isinstance(n.value, ast.Name) and n.value.id in g.params and isinstance(n.ctx, ast.Load):
+                # the parameter must not have been re-bound (e.g. p = list(p)) before
+                try:
+                    defs = common.reaching_defs(ctx, g, n.value.id, n)
+                except Exception:
+                    defs = ["?"]
+                if defs == ["<param>"]:
+                    slicers.setdefault(g.qual, set()).add(n.value.id)
+    n_sites = 0
+    for f in ctx.prog.funcs.values():
+        if f.module.name not in modules:
+            continue
+        for (c, tg, _e) in ctx.calls.callees(f):
+            if not isinstance(c, ast.Call):
+                continue
+            for t in tg:
+                if t.qual not in slicers:
+                    continue
+                for p in slicers[t.qual]:
+                    idx = t.params.index(p)
+                    if t.cls is not None and t.params and t.params[0] in ("self", "cls") and not (isinstance(c.func, ast.Name)):
+                        idx -= 1
+                    a = kwarg(c, p) or (c.args[idx] if 0 <= idx < len(c.args) else None)
+                    if a is None:
+                        continue
+                    n_sites += 1
+                    k = f"{f.qual}|{t.name}({p}=)"
+                    if _evidently_set(ctx, f, a, c):
+                        out.append(ctx.viol(R, f, c, f"{t.name}() slices its parameter `{p}` but is handed {canon(a)[:40]}, which is a set: the call works while the helper takes its "
+                                            "no-slicing shortcut (one chunk) and raises TypeError ('set' object is not subscriptable) as soon as it has to slice", construct=k))
+                    else:
+                        out.append(ctx.ok(R, f, c, f"{t.name}() slices `{p}`; the argument {canon(a)[:40]} is not a set", construct=k))
+    if not n_sites:
+        out.append(ctx.ok(R, None, None, "no internal helper slices a parameter that call sites supply", construct="|".join(modules) + "|slicers", nontrivial=False))
+    return out
+
+
+_EAGER = {"any", "all", "sum", "min", "max", "sorted", "list", "tuple", "set", "frozenset", "dict", "len", "next", "enumerate", "zip", "map", "filter", "reversed", "iter", "bool"}
+
+
+def late_binding_in_loops(ctx, R, modules):
+    """A generator expression written in a loop body evaluates its element and condition lazily: if it refers to a variable that the loop re-binds
+    (the loop target or a local assigned in the body) and outlives the iteration (stored in an object, yielded, appended), it will later see the value
+    of the *last* iteration. Only the first iterable of a generator expression is evaluated on the spot."""
+    out = []
+    n_gen = 0
+    for f in ctx.prog.funcs.values():
+        if f.module.name not in modules:
+            continue
+        pm = ctx.parents(f)
+        for g in body_nodes(f):
+            if not isinstance(g, ast.GeneratorExp):
+                continue
+            # enclosing loop (of this function)
+            loop = None
+            cur = pm.get(id(g))
+            while cur is not None and cur is not f.node:
+                if isinstance(cur, (ast.For, ast.While)):
+                    loop = cur
+                    break
+                cur = pm.get(id(cur))
+            if loop is None:
+                continue
+            n_gen += 1
+            rebound = set()
+            if isinstance(loop, ast.For):
+                rebound |= set(common.target_names(loop.target))
+            for st in loop.body:
+                for x in walk_no_nested(st):
+                    if isinstance(x, ast.Name) and isinstance(x.ctx, ast.Store):
+                        rebound.add(x.id)
+            own = {t for c in g.generators for t in common.target_names(c.target)}
+            lazy_parts = [g.elt] + [i for c in g.generators for i in c.ifs] + [c.iter for c in g.generators[1:]]
+            lazy_names = {x.id for p in lazy_parts for x in ast.walk(p) if isinstance(x, ast.Name)} - own
+            captured = sorted(lazy_names & rebound)
+            if not captured:
+                continue
+            par = pm.get(id(g))
+            k = f"{f.qual}|late-binding|{'/'.join(captured)}"
+            # consumed on the spot?
+            if isinstance(par, ast.Call) and g in par.args and (
+                    (isinstance(par.func, ast.Name) and par.func.id in _EAGER) or (isinstance(par.func, ast.Attribute) and par.func.attr in ("join", "extend", "update", "union", "intersection", "difference", "issubset", "issuperset"))):
+                out.append(ctx.ok(R, f, g, f"generator expression over {captured} is consumed on the spot by {canon(par.func)}()", construct=k, nontrivial=False))
+                continue
+            if isinstance(par, (ast.For, ast.comprehension)) and getattr(par, "iter", None) is g:
+                out.append(ctx.ok(R, f, g, "generator expression is iterated on the spot", construct=k, nontrivial=False))
+                continue
+            escapes = None
+            if isinstance(par, ast.Assign) and len(par.targets) == 1 and isinstance(par.targets[0], ast.Name):
+                nm = par.targets[0].id
+                for st in loop.body:
+                    for x in walk_no_nested(st):
+                        if isinstance(x, ast.Name) and x.id == nm and isinstance(x.ctx, ast.Load):
+                            up = pm.get(id(x))
+                            if isinstance(up, ast.Call) and x in up.args and ((isinstance(up.func, ast.Name) and up.func.id in _EAGER) or (isinstance(up.func, ast.Attribute) and up.func.attr in ("join",))):
+                                continue
+                            if isinstance(up, (ast.For, ast.comprehension)) and getattr(up, "iter", None) is x:
+                                continue
+                            escapes = up
+            elif isinstance(par, (ast.Call, ast.Yield, ast.Return, ast.Tuple, ast.List, ast.Dict, ast.keyword)):
+                escapes = par
+            if escapes is not None:
+                out.append(ctx.viol(R, f, g, f"the generator expression `{canon(g)[:60]}` is built in a loop and refers to {captured}, which the loop re-binds; it is handed on "
+                                    f"({type(escapes).__name__.lower()}: {canon(escapes)[:40]}) instead of being consumed in the same iteration, so whoever runs it later (e.g. a caller that "
+                                    "collects all items first) evaluates it with the values of the last iteration", construct=k))
+            else:
+                out.append(ctx.ok(R, f, g, f"generator expression over {captured} does not leave the iteration", construct=k, nontrivial=False))
+    if not any(r.status != "OK" for r in out):
+        out = [ctx.ok(R, None, None, f"{n_gen} generator expression(s) inside loops: none that captures a re-bound loop variable outlives its iteration",
+                      construct="|".join(modules) + "|late-binding", nontrivial=False)]
+    return out
+
+
+def no_glob_enumeration(ctx, R, modules, why):
+    """Files of a job are enumerated completely (os.walk / os.listdir / os.scandir): shell-style patterns (`*`, `**`) do not match names that start
+    with a dot unless include_hidden=True is given, so glob-based enumeration silently leaves out hidden files and directories."""
+    out = []
+    hits = 0
+    for f in ctx.prog.funcs.values():
+        if f.module.name not in modules:
+            continue
+        for c in body_nodes(f):
+            if not isinstance(c, ast.Call):
+                continue
+            e = common.ext_name(ctx, f, c) or ""
+            attr = c.func.attr if isinstance(c.func, ast.Attribute) else ""
+            if e in ("glob.glob", "glob.iglob") or (attr in ("glob", "rglob") and not e.startswith("glob.")):
+                ih = kwarg(c, "include_hidden")
+                if ih is not None and ctx.fold(ih, f) is True:
+                    continue
+                pat = c.args[0] if c.args else None
+                txt = canon(common.inline_at(ctx, f, pat, c)) if pat is not None else ""
+                if "*" in txt or attr in ("rglob",):
+                    hits += 1
+                    out.append(ctx.viol(R, f, c, f"files are enumerated with the pattern {txt[:50]}: `*` / `**` skip names that start with a dot (include_hidden defaults to False), "
+                                        f"so hidden files and everything below hidden directories are left out - {why}", construct=f"{f.qual}|glob-enumeration"))
+    if not hits:
+        out.append(ctx.ok(R, None, None, "no glob-pattern enumeration of job files (os.walk / listdir enumerate hidden entries too)", construct="|".join(modules) + "|glob-enumeration",
+                          nontrivial=False))
+    return out
